@@ -5,8 +5,10 @@ import glob, os, re, subprocess, sys, time
 ROOT = os.path.dirname(os.path.dirname(os.path.abspath(__file__)))
 props = sys.argv[1:] or sorted(os.listdir(f'{ROOT}/mutants'))
 rows = []
-for prop in props:
-    for m in sorted(glob.glob(f'{ROOT}/mutants/{prop}/*.diff')):
+
+
+def one(pm):
+        prop, m = pm
         t0 = time.time()
         r = subprocess.run([f'{ROOT}/tools/mutate.py', m, prop], capture_output=True, text=True)
         out = r.stdout + r.stderr
@@ -19,9 +21,18 @@ for prop in props:
             mm = re.search(r'RESULT (.*)', out)
             verdict = mm.group(1) if mm else 'no result'
         kind = re.search(r'kind=(\S+)', out)
-        rows.append((prop, os.path.basename(m), verdict, kind.group(1) if kind else '', f'{time.time()-t0:.0f}s'))
-        print(rows[-1], flush=True)
-with open(f'{ROOT}/MUTATION_RESULTS.md', 'a') as fh:
+        row = (prop, os.path.basename(m), verdict, kind.group(1) if kind else '', f'{time.time()-t0:.0f}s')
+        print(row, flush=True)
+        return row
+
+
+from concurrent.futures import ThreadPoolExecutor
+todo = [(prop, m) for prop in props for m in sorted(glob.glob(f'{ROOT}/mutants/{prop}/*.diff'))]
+with ThreadPoolExecutor(max_workers=4) as ex:        # 4 x (4 shards) = the 16 cores
+    rows = list(ex.map(one, todo))
+with open(f'{ROOT}/MUTATION_RESULTS.md', 'w') as fh:
+    fh.write('# Mutants (mutants/<ID>/*.diff; revert-<sha>.diff re-introduce fixed defects) '
+             'against the quick checks, VERIF_SEED=1\n')
     fh.write(f'\n## run of {time.strftime("%Y-%m-%d %H:%M")} ({" ".join(props)})\n\n')
     fh.write('| property | mutant | result | first discrepancy kind | time |\n|---|---|---|---|---|\n')
     for r in rows:
